@@ -87,7 +87,7 @@ package side_chain_manager
 //@   ensures[c35-registry-untouched] forall i uint64 :: Store[scKey("sideChain", i)] == old(Store)[scKey("sideChain", i)]
 
 //@ func UpdateSideChain
-//@   property C35, C18
+//@   property C35, C18, C32
 //@   mode abstract
 //@   requires native != nil && native.tx != nil
 //@   modifies Store
@@ -102,6 +102,11 @@ package side_chain_manager
 //@   -- an update request is stored only for a registered chain and only by its registered owner
 //@   ensures[c35-owner] Store != old(Store) ==> ownerOK && old(Store)[scKey("sideChain", cid)] != None
 //@   ensures[c35-registry-untouched] forall i uint64 :: Store[scKey("sideChain", i)] == old(Store)[scKey("sideChain", i)]
+//@   -- C32: a new update request replaces the pending one; approvals given for the replaced request are dropped
+//@   ghost var cleared bool = false
+//@   set after "node_manager.ClearConsensusSigns(native, APPROVE_UPDATE_SIDE_CHAIN, utils.GetUint64Bytes(params.ChainId))" : cleared := true
+//@   callsite[c32-approvals-of-this-request] ClearConsensusSigns#1 requires arg1 == "approveUpdateSideChain" && bytes(arg2) == u64le(params.ChainId)
+//@   ensures[c32-replaced-approvals-dropped] r1 == nil ==> cleared
 
 //@ func QuitSideChain
 //@   property C35, C18
